@@ -3,7 +3,9 @@
    serves a ResendRequest: serve_resend = the call site in _process_message (try / finally that
    restores ACTIVE when the handler leaves RESENDREQ_HANDLING) around _process_resend and what it
    calls, with the repairs D12, R3c, R5a, R5b, R6a (PossDupFlag / OrigSendingTime are set with
-   replace=True) and R6b (an EndSeqNo above sys.maxsize is read as "everything").
+   replace=True), R6b (an EndSeqNo above sys.maxsize is read as "everything"), R8a (send_msg journals
+   before it writes; replies to a ResendRequest are still only written) and R8c (an acceptor in
+   LOGON_INITIAL_RECV may only send Logon / Logout; not reachable from the handler).
 
    The property for one request (bs, es = texts of tags 7 and 16, None = tag absent) with replay
    filter f in state s is the predicate  resend_correct f s bs es  (Lemmas/ResendL.v):
@@ -108,6 +110,12 @@ Theorem C06_sent_rows_wellformed : forall m s s',
   rows s' = rows s \/ exists fr, rows s' = rows s ++ [fr] /\ codec_row fr = true.
 Proof. exact send_msg_frame_codec_row. Qed.
 Print Assumptions C06_sent_rows_wellformed.
+
+(* send_msg journals before it writes (R8a): a send that is refused or fails - state gate, TestRequest
+   gate, encoder, DuplicateSeqNoError from the journal - leaves nothing on the wire *)
+Theorem C06_failed_send_writes_nothing : forall m s e s', send_msg m s = Exc e s' -> wire s' = wire s.
+Proof. exact failed_send_writes_nothing. Qed.
+Print Assumptions C06_failed_send_writes_nothing.
 
 (* ---- the witnesses of the former known-finding classes, now positive (each is replayed on the
    implementation by harness/c06.py) *)
